@@ -210,21 +210,73 @@ def r6_derives_and_attrs(toks, log, keep_derives=None):
     return out
 
 def r4_dyn(toks, log):
-    """`dyn Trait` -> `impl Trait` inside fn signatures (between `fn` and the body `{`)."""
+    """`dyn Trait` -> `impl Trait` inside fn signatures (between `fn` and the body `{`).
+    When a `dyn Trait` occurs inside an `impl Fn*(..)` bound (where `impl Trait` is not allowed and the closure's
+    parameter must be the same type as the object passed next to it), every `dyn Trait` of that signature becomes one
+    named fn-level type parameter `VDyn<Trait>: Trait` instead.
+    `trait X: Display` / `: Debug` supertraits are dropped (formatting is not verified)."""
     out = list(toks)
     i = 0
     while i < len(out):
+        if out[i].kind == "id" and out[i].text == "trait" and i + 3 < len(out) and out[i + 1].kind == "id" and out[i + 2].text == ":" \
+                and out[i + 3].text in ("Display", "Debug") and out[i + 4].text == "{":
+            log.add("R4", out[i + 2], render(out[i + 2:i + 4]))
+            del out[i + 2:i + 4]
+            continue
         if out[i].kind == "id" and out[i].text == "fn" and i + 1 < len(out) and out[i + 1].kind == "id":
             j = i + 1
+            named = set()
+            # first pass: which traits occur as `dyn T` inside an `impl Fn..( .. )` bound
+            k = i + 2
+            end = k
+            while end < len(out) and out[end].text not in ("{", ";"):
+                if out[end].text in ("(", "["):
+                    end = match_close(out, end)
+                end += 1
+            k = i + 2
+            while k < end:
+                if out[k].kind == "id" and out[k].text == "impl" and out[k + 1].text in ("FnOnce", "Fn", "FnMut") and out[k + 2].text == "(":
+                    c = match_close(out, k + 2)
+                    for m in range(k + 2, c):
+                        if out[m].text == "dyn":
+                            named.add(out[m + 1].text)
+                    k = c
+                k += 1
             while j < len(out) and out[j].text not in ("{", ";"):
                 if out[j].text in ("(", "["):
                     close = match_close(out, j)
-                    for k in range(j, close):
+                    k = j
+                    while k < close:
                         if out[k].kind == "id" and out[k].text == "dyn":
                             log.add("R4", out[k], render(out[k:k + 2]))
+                            if out[k + 1].text in named:
+                                out[k + 1] = out[k + 1].clone(text="VDyn" + out[k + 1].text, ws=out[k].ws)
+                                del out[k]
+                                close -= 1
+                                continue
                             out[k] = out[k].clone(text="impl")
+                        k += 1
                     j = close
                 j += 1
+            if named:
+                ins = []
+                for nm in sorted(named):
+                    ins += gen("VDyn%s: %s" % (nm, nm), out[i + 1], "")
+                if out[i + 2].text == "<":
+                    # existing generics: append
+                    g = i + 2
+                    depth = 0
+                    while True:
+                        if out[g].text == "<": depth += 1
+                        elif out[g].text == ">":
+                            depth -= 1
+                            if depth == 0: break
+                        g += 1
+                    out[g:g] = gen(", ", out[i + 1], "") + ins
+                    j += len(ins) + 1
+                else:
+                    out[i + 2:i + 2] = gen("<", out[i + 1], "") + ins + gen(">", out[i + 1], "")
+                    j += len(ins) + 2
             i = j
         i += 1
     return out
@@ -363,8 +415,34 @@ def r5_consts(pieces_toks, const_context, log, rustc="rustc"):
         toks[eq + 1:e] = gen(" " + vals[name], toks[eq])
         toks[eq + 1].ws = " "
 
+def r18_bytestr_consts(toks, log):
+    """R18: `const X: &[u8] = b"..";` -> `#[verifier::external_body] exec const X: &'static [u8] ensures X@ =~= seq![..the literal's bytes..] { b".." }`
+    (Verus neither evaluates byte-string literals nor lets a slice-typed const be dual-mode; the byte values are read from the literal in /repo)."""
+    import ast
+    i = 0
+    while i + 9 < len(toks):
+        t = toks[i]
+        if t.kind == "id" and t.text == "const" and toks[i + 1].kind == "id" and toks[i + 2].text == ":" and toks[i + 3].text == "&" \
+                and toks[i + 4].text == "[" and toks[i + 5].text == "u8" and toks[i + 6].text == "]" and toks[i + 7].text == "=" \
+                and toks[i + 8].kind == "str" and toks[i + 8].text.startswith('b"') and toks[i + 9].text == ";":
+            lit = toks[i + 8].text
+            try:
+                val = ast.literal_eval(lit)
+            except Exception:
+                raise RuntimeError("R18: cannot evaluate byte string literal %s" % lit)
+            name = toks[i + 1].text
+            seq = ", ".join("%du8" % b for b in val)
+            log.add("R18", t, render(toks[i:i + 10]))
+            rep = gen("#[verifier::external_body] exec const %s: &'static [u8] ensures %s@ =~= seq![%s] { %s }" % (name, name, seq, lit), t)
+            toks = toks[:i] + rep + toks[i + 10:]
+            i += len(rep)
+            continue
+        i += 1
+    return toks
+
 def apply_item_rewrites(toks, log, opts=None):
     opts = opts or {}
+    toks = r18_bytestr_consts(toks, log)
     toks = r6_derives_and_attrs(toks, log, opts.get("derives"))
     toks = r11_visibility(toks, log)
     toks = r2_logs(toks, log)
